@@ -245,10 +245,17 @@ class LFRicBuiltIn(BuiltIn, metaclass=abc.ABCMeta):
                         f"LFRicBuiltin.reference_accesses only supports field "
                         f"and scalar arguments but got '{arg.name}' of type "
                         f"'{arg.argument_type}'")
+                # A field is accessed as an array, indexed by the DoF-loop
+                # variable.
+                indices = None
+                if arg.is_field:
+                    indices = [Reference(self.get_dof_loop_index_symbol())]
                 if arg.access == AccessType.WRITE:
-                    written.add_access(Signature(name), arg.access, self)
+                    written.add_access(Signature(name), arg.access, self,
+                                       indices)
                 else:
-                    var_accesses.add_access(Signature(name), arg.access, self)
+                    var_accesses.add_access(Signature(name), arg.access, self,
+                                            indices)
         # Now merge the write access to the end of all other accesses:
         var_accesses.merge(written)
         # Forward location pointer to next index, since this built-in kernel
